@@ -12,19 +12,23 @@ import Nstd.Callback.LemmasTop
 -/
 namespace Nstd.Callback
 
-/-- read a log (oldest event first) with the stack of the arguments of the `emit` calls in
-    progress, innermost first; `none` = an invocation outside every emission, or with an argument
-    other than the one of the innermost emission, or a return without a call -/
-def fwd : List Nat → List Ev → Option (List Nat)
+/-- read a log (oldest event first) with the stack of the arguments of the `emit` calls in progress, innermost
+    first (`ref g` = the parameter type of signal `g` is a reference).  An invocation must carry the current content
+    of the argument of the innermost emission; a slot returning from a reference parameter (`ret w`) leaves `w` in
+    it; `none` = an invocation outside every emission or with another argument, a `ret` for a by-value emission, a
+    return without a call. -/
+def fwd (ref : Nat → Bool) : List Arg → List Ev → Option (List Arg)
   | st, [] => some st
-  | st, .emitBegin _ _ v :: es => fwd (v :: st) es
+  | st, .emitBegin _ g v :: es => fwd ref (⟨v, ref g⟩ :: st) es
   | [], .call _ _ _ :: _ => none
-  | v' :: st, .call _ _ v :: es => if v = v' then fwd (v' :: st) es else none
+  | c :: st, .call _ _ v :: es => if v = c.val then fwd ref (c :: st) es else none
   | [], .emitEnd :: _ => none
-  | _ :: st, .emitEnd :: es => fwd st es
+  | _ :: st, .emitEnd :: es => fwd ref st es
+  | [], .ret _ :: _ => none
+  | c :: st, .ret w :: es => if c.ref then fwd ref (⟨w, true⟩ :: st) es else none
 
-theorem fwd_append (st : List Nat) (xs ys : List Ev) :
-    fwd st (xs ++ ys) = (fwd st xs).bind (fun st' => fwd st' ys) := by
+theorem fwd_append (ref : Nat → Bool) (st : List Arg) (xs ys : List Ev) :
+    fwd ref st (xs ++ ys) = (fwd ref st xs).bind (fun st' => fwd ref st' ys) := by
   induction xs generalizing st with
   | nil => rfl
   | cons x xs ih =>
@@ -33,32 +37,40 @@ theorem fwd_append (st : List Nat) (xs ys : List Ev) :
     | call l s v =>
       cases st with
       | nil => simp [fwd]
-      | cons v' st =>
+      | cons c st =>
         simp only [List.cons_append, fwd]
-        by_cases c : v = v'
-        · simp only [c, if_true, ih]
-        · simp [c]
+        by_cases h : v = c.val
+        · simp only [h, if_true, ih]
+        · simp [h]
     | emitEnd =>
       cases st with
       | nil => simp [fwd]
-      | cons v' st => simp only [List.cons_append, fwd, ih]
+      | cons c st => simp only [List.cons_append, fwd, ih]
+    | ret w =>
+      cases st with
+      | nil => simp [fwd]
+      | cons c st =>
+        simp only [List.cons_append, fwd]
+        by_cases h : c.ref = true
+        · simp only [h, if_true, ih]
+        · simp [h]
 
 variable {σ α π : Type}
 
 theorem prim_log (M : Machine σ α π) (r : Run σ) (a : Action) : (r.prim M a).log = r.log := by
   cases a <;> simp only [Run.prim] <;> (try split) <;> rfl
 
-/-- what a script adds to the log is balanced (every stack is left as it was); what the loop of an
-    emission with argument `v` adds is balanced under `v` -/
+/-- what a script adds to the log is balanced (every stack is left as it was); what the loop of an emission adds
+    is accepted under its argument `v` and leaves the argument as the last slot left it (a by-value argument unchanged) -/
 theorem exec_fwd (M : Machine σ α π) (P : Prog) (n : Nat) :
     (∀ (r : Run σ) (as : List Action), ∃ new, (exec M P n r (.acts as)).log = new ++ r.log ∧
-        ∀ st, fwd st new.reverse = some st) ∧
-    (∀ (r : Run σ) (a : α) (p : π) (v : Nat), ∃ new, (exec M P n r (.loop a p v)).log = new ++ r.log ∧
-        ∀ st, fwd (v :: st) new.reverse = some (v :: st)) := by
+        ∀ st, fwd P.ref st new.reverse = some st) ∧
+    (∀ (r : Run σ) (a : α) (p : π) (v : Arg), ∃ new v', (exec M P n r (.loop a p v)).log = new ++ r.log ∧
+        (v.ref = false → v' = v) ∧ ∀ st, fwd P.ref (v :: st) new.reverse = some (v' :: st)) := by
   induction n with
   | zero =>
     exact ⟨fun r as => ⟨[], by rw [exec_zero]; rfl, fun st => rfl⟩,
-      fun r a p v => ⟨[], by rw [exec_zero]; rfl, fun st => rfl⟩⟩
+      fun r a p v => ⟨[], v, by rw [exec_zero]; rfl, fun _ => rfl, fun st => rfl⟩⟩
   | succ n ih =>
     obtain ⟨ihA, ihL⟩ := ih
     constructor
@@ -74,9 +86,9 @@ theorem exec_fwd (M : Machine σ α π) (P : Prog) (n : Nat) :
                 match M.begin (r.emId e) g r.m with
                 | (m1, none) => ({ r with m := m1 }.mark (.emitBegin e g v)).mark .emitEnd
                 | (m1, some (a, p)) =>
-                  { exec M P n ({ r with m := m1 }.mark (.emitBegin e g v)) (.loop a p v) with
-                    m := M.finish a (exec M P n ({ r with m := m1 }.mark (.emitBegin e g v)) (.loop a p v)).m }.mark .emitEnd
-              else r).log = new ++ r.log ∧ ∀ st, fwd st new.reverse = some st := by
+                  { exec M P n ({ r with m := m1 }.mark (.emitBegin e g v)) (.loop a p ⟨v, P.ref g⟩) with
+                    m := M.finish a (exec M P n ({ r with m := m1 }.mark (.emitBegin e g v)) (.loop a p ⟨v, P.ref g⟩)).m }.mark .emitEnd
+              else r).log = new ++ r.log ∧ ∀ st, fwd P.ref st new.reverse = some st := by
             by_cases c : M.aliveE r.m (r.emId e) = true
             · simp only [c, if_true]
               rcases hb : M.begin (r.emId e) g r.m with ⟨m1, o⟩
@@ -86,7 +98,7 @@ theorem exec_fwd (M : Machine σ α π) (P : Prog) (n : Nat) :
                 simp [fwd]
               | some ap =>
                 obtain ⟨a, p⟩ := ap
-                obtain ⟨new, hlog, hf⟩ := ihL ({ r with m := m1 }.mark (.emitBegin e g v)) a p v
+                obtain ⟨new, v', hlog, _, hf⟩ := ihL ({ r with m := m1 }.mark (.emitBegin e g v)) a p ⟨v, P.ref g⟩
                 refine ⟨.emitEnd :: (new ++ [.emitBegin e g v]), ?_, fun st => ?_⟩
                 · simp only [Run.mark] at hlog ⊢
                   rw [hlog]
@@ -108,25 +120,39 @@ theorem exec_fwd (M : Machine σ α π) (P : Prog) (n : Nat) :
     · intro r a p v
       rw [exec_loop]
       cases hn : M.next r.m a p with
-      | done => exact ⟨[], rfl, fun st => rfl⟩
-      | fault => exact ⟨[], rfl, fun st => rfl⟩
+      | done => exact ⟨[], v, rfl, fun _ => rfl, fun st => rfl⟩
+      | fault => exact ⟨[], v, rfl, fun _ => rfl, fun st => rfl⟩
       | call l s p' =>
         simp only
         by_cases c : M.aliveL r.m l = true
         · simp only [c, if_true]
-          obtain ⟨new1, h1, hf1⟩ := ihA (r.enter (r.lIdx l) s v) (P.script (r.lIdx l) s (r.inv (r.lIdx l) s))
-          obtain ⟨new2, h2, hf2⟩ := ihL (exec M P n (r.enter (r.lIdx l) s v)
-            (.acts (P.script (r.lIdx l) s (r.inv (r.lIdx l) s)))) a p' v
-          refine ⟨new2 ++ (new1 ++ [.call (r.lIdx l) s v]), ?_, fun st => ?_⟩
-          · rw [h2, h1]
+          generalize hw : v.val + bumpOf (P.script (r.lIdx l) s (r.inv (r.lIdx l) s)) = w
+          obtain ⟨new1, h1, hf1⟩ := ihA (r.enter (r.lIdx l) s v.val) (P.script (r.lIdx l) s (r.inv (r.lIdx l) s))
+          obtain ⟨new2, v', h2, hv2, hf2⟩ := ihL ((exec M P n (r.enter (r.lIdx l) s v.val)
+            (.acts (P.script (r.lIdx l) s (r.inv (r.lIdx l) s)))).markIf v.ref (.ret w)) a p' (v.after w)
+          refine ⟨new2 ++ ((if v.ref then [Ev.ret w] else []) ++ (new1 ++ [.call (r.lIdx l) s v.val])), v', ?_, ?_, fun st => ?_⟩
+          · rw [h2, markIf_log, h1]
             simp only [Run.enter, List.append_assoc, List.cons_append, List.nil_append]
-          · simp only [List.reverse_append, List.reverse_cons, List.reverse_nil, List.nil_append,
-              List.cons_append, fwd_append, fwd, if_true, hf1, hf2, Option.bind_some]
+          · intro hr
+            have : v.after w = v := by simp [Arg.after, hr]
+            rw [this] at hv2
+            exact hv2 hr
+          · cases hr : v.ref with
+            | false =>
+              have ha : v.after w = v := by simp [Arg.after, hr]
+              rw [ha] at hf2
+              simp only [Bool.false_eq_true, if_false, List.nil_append, List.reverse_append, List.reverse_cons, List.reverse_nil,
+                List.cons_append, fwd_append, fwd, if_true, hf1, hf2, Option.bind_some]
+            | true =>
+              have ha : v.after w = ⟨w, true⟩ := by simp [Arg.after, hr]
+              rw [ha] at hf2
+              simp only [if_true, List.reverse_append, List.reverse_cons, List.reverse_nil, List.nil_append,
+                List.cons_append, fwd_append, fwd, hf1, hf2, hr, Option.bind_some]
         · simp only [c]
-          exact ⟨[], rfl, fun st => rfl⟩
+          exact ⟨[], v, rfl, fun _ => rfl, fun st => rfl⟩
 
 theorem runOps_fwd (M : Machine σ α π) (P : Prog) (fuel : Nat) (ops : List Action) :
-    ∀ r : Run σ, ∃ new, (runOps M P fuel r ops).log = new ++ r.log ∧ ∀ st, fwd st new.reverse = some st := by
+    ∀ r : Run σ, ∃ new, (runOps M P fuel r ops).log = new ++ r.log ∧ ∀ st, fwd P.ref st new.reverse = some st := by
   induction ops with
   | nil => intro r; exact ⟨[], rfl, fun st => rfl⟩
   | cons a as ih =>
